@@ -172,7 +172,12 @@ func init() {
 			i.abort(abortUnsupported, "UnixNano on a time without monotonic reading (not produced by the clock model)")
 		}
 		st := i.st
-		const base = int64(1_790_000_000_000_000_000) - (1 << 41)
+		// present-day instants, or the epoch of a testing/synctest bubble (2000-01-01) when the
+		// harness is replayed inside one
+		base := int64(1_790_000_000_000_000_000) - (1 << 41)
+		if i.cfg.SynctestEpoch {
+			base = int64(946_684_800_000_000_000) - (1 << 41)
+		}
 		return i.val(st.Add(st.BV(64, uint64(base)), i.term(tv[1])), types.Int64)
 	}
 	externals["time.runtimeIsBubbled"] = func(fr *frame, a []value) value { return false }
